@@ -11,6 +11,14 @@ NOTE = ("Trusted: the symgo engine (fork of x/tools go/ssa/interp + SMT encoding
 
 # id -> (claim text, design ref)
 CLAIMS = {
+ "C25": ("ast EvalRaw (comparison on packed encodings) vs Eval on the row's values for shapes f op c, c op f, f op g, f [not] in (c,d), "
+         "in-range, not, and/or of two comparisons, ternary; values boolean, numbers {0,-1,250} and all 3-digit integers of equal sign, "
+         "strings of 0..1 bytes, dates/timestamps with arbitrary field bits; the empty-string-vs-non-string order exception assumed "
+         "away: same result. The negative-number packed order is a known finding.", "4 C25"),
+ "C30": ("The same expression built through the plain Factory and through the Folder and evaluated with the real Eval under one "
+         "context: n-ary + - * / with 2..3 literal/identifier operands on the exact-arithmetic domain, unary and comparison "
+         "operators, % << >>, and or | & ^ $, ternary, [not] in, range folding and is-or-is -> in, over int8 numbers, 0..1-byte strings "
+         "and booleans: same value or both throw. Two folding defects are known findings; PropFold and codegen are NOT covered.", "4 C30"),
  "C17": ("PriorityQueue: one Get or Put from an arbitrary queue of 0..8 messages (real bufSize) with symbolic priorities and every "
          "equality pattern of transaction numbers: Get delivers the highest-priority message among the oldest of each transaction "
          "(ties: the earlier), removes exactly it, keeps the rest in order; concurrent scenario (bufSize shrunk to 2, 2 producers x 2 "
@@ -166,8 +174,6 @@ NA = {
  "C43": "data-race freedom under the Go memory model: the engine explores interleavings at synchronisation operations only, which presupposes race freedom (DESIGN.md 5)",
 }
 NA.update({
- "C25": "harness for EvalRaw vs Eval was still being written/run by a helper when time ran out; nothing ran clean, so nothing is claimed (DESIGN.md 8.6). The raw comparison inherits the negative-number packed-order defect recorded under C13",
- "C30": "harness for Folder vs Factory evaluation was still being written/run by a helper when time ran out; nothing ran clean, so nothing is claimed (DESIGN.md 8.6)",
  "C35": "record rules need the Thread rule stack, observers and callable rule values driven through SuRecord; not attempted in the time available (DESIGN.md 8.6)",
  "C40": "a transport harness exists (harness/dbms/mux/c40_frames.go) but every path exhausts the engine's step budget, cause not found in time; disabled, nothing claimed. The wire encodings are covered by C14 (DESIGN.md 8.6)",
 })
